@@ -120,10 +120,20 @@ Definition run_history (a : sexp) : sexp :=
   let '(g, outs) := run cap fmt G0 ops in
   L [e_list e_outcome outs; e_final g; L (baselines cap fmt G0 ops); e_nat cap].
 
+(* ---- fn 3: a history of opaque engine calls (ids).  In the model an opaque call returns and touches no cell of G
+   (exec _ _ g (OOpaque id) = (g, Ok VUnit)), so what it returns can only be a function of its id: every repetition
+   of an id gives what its first occurrence gave.  Output: for each position the index of the first occurrence. ---- *)
+Fixpoint first_idx (ids : list N) (k : N) (i : nat) : nat :=
+  match ids with [] => i | x :: r => if N.eqb x k then i else first_idx r k (S i) end.
+Definition run_engines (a : sexp) : sexp :=
+  let ids := d_list d_N a in
+  e_list (fun k => L [e_N k; e_nat (first_idx ids k 0)]) ids.
+
 Definition dispatch (fn : Z) (a : sexp) : sexp :=
   match fn with
   | 1%Z => run_memo a
   | 2%Z => run_history a
+  | 3%Z => run_engines a
   | _ => L []
   end.
 
